@@ -257,18 +257,27 @@ func (r *relay) processFrame(f http2.Frame) error {
 			r.destMu.Unlock()
 		} else {
 			var settings []http2.Setting
+			// The values of a SETTINGS frame are processed in order with no other frame processing
+			// between them (RFC 7540, section 6.5.3). A new initial window size releases queued
+			// frames, so it is only applied once the whole frame has been read: when the setting
+			// occurs more than once, nothing may be sent under an intermediate value.
+			var initialWindowSize uint32
+			hasInitialWindowSize := false
 			if err = f.ForeachSetting(func(s http2.Setting) error {
 				switch s.ID {
 				case http2.SettingHeaderTableSize:
 					r.peer.updateTableSize(s.Val)
 				case http2.SettingInitialWindowSize:
-					r.peer.updateInitialWindowSize(s.Val)
+					initialWindowSize, hasInitialWindowSize = s.Val, true
 				case http2.SettingMaxFrameSize:
 					r.peer.updateMaxFrameSize(s.Val)
 				}
 				settings = append(settings, s)
 				return nil
 			}); err == nil {
+				if hasInitialWindowSize {
+					r.peer.updateInitialWindowSize(initialWindowSize)
+				}
 				r.destMu.Lock()
 				err = r.dest.WriteSettings(settings...)
 				r.destMu.Unlock()
